@@ -320,7 +320,193 @@ func runRegistry(withStops bool) func(rc *core.RunCtx) {
 	}
 }
 
+// children scenario (C10): one parent actor spawns children from a small pool
+// of ids through Context.SpawnChild on command, some of them doomed (their
+// receiver panics while starting until the restart budget is exhausted, so
+// the child lives and dies inside the SpawnChild call); tasks stop children
+// and look them up meanwhile. Same linearizability model; a doomed winning
+// spawn is the pair Spawn [call, first Producer run] + removal [first Producer
+// run, return].
+func runRegChildren(rc *core.RunCtx) {
+	const own = "C10"
+	setKnobs(rc)
+	g := simrt.G()
+	env := NewEnv(rc)
+	mon := env.NewMonitor("mon")
+	parent := &Spec{Kind: "par", ID: "p", MaxRestarts: 0, InboxSize: 1024, PanicInit: map[int]bool{}, PanicStarted: map[int]bool{}, PanicStopped: map[int]bool{}}
+	env.Spawn(parent)
+	nids := g.Range(1, 2)
+	var ids []string
+	for i := 0; i < nids; i++ {
+		ids = append(ids, fmt.Sprintf("par/p/kid/k%d", i))
+	}
+	type chOp struct {
+		op     int
+		id     string
+		doomed bool
+		poison bool
+		spec   *Spec
+	}
+	ntasks := g.Range(1, 3)
+	maxOps := 5
+	if rc.Tier == "thorough" {
+		maxOps = 8
+	}
+	scripts := make([][]chOp, ntasks)
+	for t := range scripts {
+		n := g.Range(1, maxOps)
+		var sb strings.Builder
+		for i := 0; i < n; i++ {
+			o := chOp{op: g.Pick(5, 2, 3), id: ids[g.IntN(len(ids))]}
+			switch o.op {
+			case rSpawn:
+				o.doomed = g.Bool(0.4)
+				sp := &Spec{Kind: kindOf(o.id), ID: idOf(o.id), MaxRestarts: g.Range(0, 2), InboxSize: 4, PanicInit: map[int]bool{}, PanicStarted: map[int]bool{}, PanicStopped: map[int]bool{}}
+				if o.doomed {
+					for k := 0; k <= sp.MaxRestarts; k++ {
+						if g.Bool(0.5) {
+							sp.PanicInit[k] = true
+						} else {
+							sp.PanicStarted[k] = true
+						}
+					}
+				}
+				o.spec = sp
+				fmt.Fprintf(&sb, "SpawnChild(%s,doomed=%v,maxRestarts=%d) ", o.id, o.doomed, sp.MaxRestarts)
+			case rStopWait:
+				o.poison = g.Bool(0.5)
+				fmt.Fprintf(&sb, "StopWait(%s,poison=%v) ", o.id, o.poison)
+			case rGetPID:
+				fmt.Fprintf(&sb, "GetPID(%s) ", o.id)
+			}
+			scripts[t] = append(scripts[t], o)
+		}
+		rc.Scen("task t%d: %s", t, sb.String())
+	}
+	rc.PostRun = func(res *simrt.Result) {
+		if res.Crash != nil && !res.Crash.Harness {
+			rc.Block("process crashed: %s", core.FirstLine(res.Crash.Value))
+		}
+		if res.EndReason == "steps" {
+			rc.Block("step budget exhausted")
+		}
+	}
+	var seq int64
+	var hist []porcupine.Operation
+	losing, winning, wantProd := map[string]int{}, map[string]int{}, map[string]int{}
+	const parentClient = 1000
+	spawnsIssued, spawnsDone := 0, 0
+	finished := 0
+	for t := range scripts {
+		t := t
+		simrt.Go(fmt.Sprintf("task%d", t), func() {
+			for i, o := range scripts[t] {
+				o := o
+				simrt.Yield(simrt.OpUser)
+				switch o.op {
+				case rSpawn:
+					m := env.NewMsg(fmt.Sprintf("t%d", t), i)
+					m.Op, m.Spec = cSpawnChild, o.spec
+					var call, t1 int64
+					won := false
+					m.Hook = func(stage int) {
+						switch stage {
+						case 0:
+							seq++
+							call = seq
+						case 1:
+							won = true
+							seq++
+							t1 = seq
+							seq++ // t1+1 is reserved for the removal of a doomed child
+							hist = append(hist, porcupine.Operation{ClientId: parentClient, Input: regIn{rSpawn, o.id}, Call: call, Output: regOut{Won: true}, Return: t1})
+						case 2:
+							seq++
+							if !won {
+								hist = append(hist, porcupine.Operation{ClientId: parentClient, Input: regIn{rSpawn, o.id}, Call: call, Output: regOut{Won: false}, Return: seq})
+								losing[o.id]++
+							} else {
+								winning[o.id]++
+								wantProd[o.id]++
+								if o.doomed {
+									// it has used up its budget and is gone by now
+									wantProd[o.id] += o.spec.MaxRestarts
+									seq++
+									hist = append(hist, porcupine.Operation{ClientId: parentClient, Input: regIn{rStopWait, o.id}, Call: t1 + 1, Output: regOut{}, Return: seq})
+									simrt.Probe("child-died-inside-SpawnChild")
+								}
+							}
+							simrt.Ev("spawnchild %s won=%v doomed=%v", o.id, won, o.doomed)
+							spawnsDone++
+						}
+					}
+					spawnsIssued++
+					env.Send(fmt.Sprintf("t%d", t), parent.FullID(), m, nil)
+				case rStopWait:
+					seq++
+					call := seq
+					var ctx interface{ Done() <-chan struct{} }
+					if o.poison {
+						ctx = env.E.Poison(actor.NewPID("local", o.id))
+					} else {
+						ctx = env.E.Stop(actor.NewPID("local", o.id))
+					}
+					simrt.Recv(ctx.Done())
+					seq++
+					simrt.Ev("stopwait t%d %s", t, o.id)
+					hist = append(hist, porcupine.Operation{ClientId: t, Input: regIn{rStopWait, o.id}, Call: call, Output: regOut{}, Return: seq})
+				case rGetPID:
+					seq++
+					call := seq
+					p := env.E.Registry.GetPID(kindOf(o.id), idOf(o.id))
+					seq++
+					simrt.Ev("getpid t%d %s -> %v", t, o.id, p != nil)
+					hist = append(hist, porcupine.Operation{ClientId: t, Input: regIn{rGetPID, o.id}, Call: call, Output: regOut{Present: p != nil}, Return: seq})
+				}
+			}
+			finished++
+		})
+	}
+	simrt.WaitQuiet(time.Hour)
+	if finished != ntasks || spawnsDone != spawnsIssued {
+		rc.Violate2(own, "operation-never-returned/children", "%d of %d tasks finished, %d of %d SpawnChild commands completed; blocked: %v", finished, ntasks, spawnsDone, spawnsIssued, simrt.BlockedTasks())
+		return
+	}
+	switch porcupine.CheckOperationsTimeout(regModel, hist, 10*time.Second) {
+	case porcupine.Illegal:
+		var sb strings.Builder
+		for _, o := range hist {
+			fmt.Fprintf(&sb, "c%d[%d,%d] %s; ", o.ClientId, o.Call, o.Return, regModel.DescribeOperation(o.Input, o.Output))
+		}
+		rc.Violate2(own, "registry-not-linearizable/children", "no linearization against the set-of-registered-ids model (a child that exhausts its restart budget while starting counts as spawned, then removed): %s", sb.String())
+	case porcupine.Unknown:
+		rc.Inconclusive("porcupine timeout on %d ops", len(hist))
+	}
+	for _, id := range ids {
+		prod := 0
+		for _, in := range env.byID[id] {
+			prod += in.Produced
+		}
+		if prod != wantProd[id] {
+			rc.Violate2(own, "producer-calls/children", "%s: Producer ran %d times, want %d (%d winning spawns, one more run per restart of a doomed child)", id, prod, wantProd[id], winning[id])
+		}
+		dup := 0
+		for _, e := range mon.Events {
+			if d, ok := e.Ev.(actor.ActorDuplicateIdEvent); ok && d.PID != nil && d.PID.ID == id {
+				dup++
+			}
+		}
+		if dup != losing[id] {
+			rc.Violate2(own, "duplicate-id-event-count/children", "%s: %d ActorDuplicateIdEvents, %d losing SpawnChild calls", id, dup, losing[id])
+		}
+	}
+	rc.Nontrivial = len(hist) > 2
+}
+
 func init() {
+	core.Register(&core.Profile{Property: "C10", Name: "children", Weight: 2, Cfg: cfgEngine, Run: runRegChildren,
+		Doc: "one real Engine; a parent actor spawns children from a pool of 1-2 ids through Context.SpawnChild on command (40% of them doomed: the receiver panics in Initialized/Started until the restart budget 0-2 is exhausted, so the child lives and dies inside the call), 1-3 tasks stop/poison-and-wait and look up the children meanwhile; oracle: porcupine linearizability against the set-of-registered-ids model, Producer runs per winning spawn (1 + restarts of a doomed child) and never for a loser, one ActorDuplicateIdEvent per losing spawn: an id whose actor died can be spawned again",
+		Faults: []string{"actor-crash-in-Initialized", "actor-crash-in-Started", "restart-budget-exceeded", "concurrent stop/poison"}})
 	base := "one real Engine; 2-4 tasks doing Spawn / stop-and-wait / GetPID / Send over a pool of 1-3 ids; each operation stamped call/return with a global event counter; "
 	core.Register(&core.Profile{Property: "C10", Name: "registry", Weight: 3, Cfg: cfgEngine, Run: runRegistry(true),
 		Doc: base + "oracle: porcupine linearizability against 'set of registered ids' (Spawn wins iff absent, StopAndWait removes, GetPID reads), Producer runs once per winning spawn and never for a loser, one ActorDuplicateIdEvent per losing spawn, successive actors under one id never overlap"})
